@@ -387,8 +387,9 @@ func (w *world) callMods(kg *fgen, x ssa.CallInstruction, ms *modset) {
 	}
 	callee := c.StaticCallee()
 	if callee == nil {
-		ms.all, ms.heapOnly = true, false
-		ms.why = "dynamic call"
+		o := newModset()
+		o.all, o.heapOnly, o.why = true, true, "dynamic call"
+		ms.union(o)
 		return
 	}
 	if fc := w.contractFor(callee); fc != nil && fc.hasMod {
